@@ -53,8 +53,9 @@ pub struct World {
     nodes: BTreeMap<usize, RealNode>,
     by_addr: HashMap<SocketAddr, usize>,
     /// transaction ids of queries sent by real nodes, `#k` by first appearance
-    names: Vec<Vec<u8>>,
-    known: HashSet<Vec<u8>>,
+    /// (owner node, id bytes): two nodes may draw the same 8 bytes
+    names: Vec<(usize, Vec<u8>)>,
+    known: HashSet<(usize, Vec<u8>)>,
     /// tokens seen in replies of real nodes, `K<n>` by first appearance
     toks: Vec<Vec<u8>>,
     tok_known: HashSet<Vec<u8>>,
@@ -114,10 +115,18 @@ impl World {
         self.now()
     }
 
-    /// `{hex}` for an id a real node drew (named `#k` when the line is rendered), `x<hex>` otherwise
-    fn tid_str(&mut self, tid: &[u8], own: bool) -> String {
-        if own { self.known.insert(tid.to_vec()); }
-        if self.known.contains(tid) { format!("{{{}}}", hex(tid)) } else { format!("x{}", hex_or_dash(tid)) }
+    /// `{owner:hex}` for an id the real node `owner` drew (named `#k` when the line is rendered),
+    /// `x<hex>` otherwise; `own`: node `owner` is using it as its own id right now
+    fn tid_str(&mut self, owner: usize, tid: &[u8], own: bool) -> String {
+        if own { self.known.insert((owner, tid.to_vec())); }
+        if self.known.contains(&(owner, tid.to_vec())) { format!("{{{owner}:{}}}", hex(tid)) } else { format!("x{}", hex_or_dash(tid)) }
+    }
+    /// the id echoed in a reply of node `k` to `dst`: the destination's own id if it is a real node's, else `k`'s
+    fn echo_str(&mut self, k: usize, dst: &SocketAddr, tid: &[u8]) -> String {
+        if let Some(d) = self.by_addr.get(dst).copied() {
+            if self.known.contains(&(d, tid.to_vec())) { return self.tid_str(d, tid, false) }
+        }
+        self.tid_str(k, tid, false)
     }
     /// `<hex>` placeholder of a token issued by a real node (named `K<n>` at rendering)
     fn tok_str(&mut self, tok: &[u8]) -> String {
@@ -134,11 +143,13 @@ impl World {
             let open = rest.as_bytes()[i];
             let close = if open == b'{' { '}' } else { '>' };
             let j = rest[i..].find(close).map(|j| i + j).unwrap_or(rest.len() - 1);
-            let bytes = unhex(&rest[i + 1..j]).unwrap_or_default();
             if open == b'{' {
-                let k = match self.names.iter().position(|n| *n == bytes) { Some(k) => k, None => { self.names.push(bytes); self.names.len() - 1 } };
+                let (o, h) = rest[i + 1..j].split_once(':').unwrap_or(("0", ""));
+                let key = (o.parse::<usize>().unwrap_or(0), unhex(h).unwrap_or_default());
+                let k = match self.names.iter().position(|n| *n == key) { Some(k) => k, None => { self.names.push(key); self.names.len() - 1 } };
                 res.push_str(&format!("#{k}"));
             } else {
+                let bytes = unhex(&rest[i + 1..j]).unwrap_or_default();
                 let k = match self.toks.iter().position(|n| *n == bytes) { Some(k) => k, None => { self.toks.push(bytes); self.toks.len() - 1 } };
                 res.push_str(&format!("K{k}"));
             }
@@ -182,7 +193,8 @@ impl World {
                         Ok(m) => {
                             let is_q = matches!(m.body, MessageBody::Request(_));
                             let is_reply = matches!(m.body, MessageBody::Response(_));
-                            format!("W {}/{}/t={} {}", addr_str(&dst), w[3], self.tid_str(&m.transaction_id, is_q), self.body_text(&m, is_reply))
+                            let t = if is_q { self.tid_str(node, &m.transaction_id, true) } else { self.echo_str(node, &dst, &m.transaction_id) };
+                            format!("W {}/{}/t={t} {}", addr_str(&dst), w[3], self.body_text(&m, is_reply))
                         }
                         Err(_) => format!("W {}/{}/undecodable:{}", addr_str(&dst), w[3], bytes.len()),
                     };
@@ -191,8 +203,8 @@ impl World {
                 }
                 (Some("H"), Some("timer")) => match w[2] {
                     "refresh" => "H timer refresh".to_string(),
-                    "lookup_timeout" => format!("H timer timeout:{}", self.tid_str(&unhex(w[3]).unwrap(), true)),
-                    _ => format!("H timer endgame:{}", self.tid_str(&unhex(w[3]).unwrap(), true)),
+                    "lookup_timeout" => format!("H timer timeout:{}", self.tid_str(node, &unhex(w[3]).unwrap(), true)),
+                    _ => format!("H timer endgame:{}", self.tid_str(node, &unhex(w[3]).unwrap(), true)),
                 },
                 (Some("H"), Some("msg")) | (Some("S"), Some("routed")) | (Some("S"), Some("undecodable")) | (Some("B"), Some("handled")) | (Some("B"), Some("ignored")) => {
                     let a: SocketAddr = w[2].parse().unwrap();
@@ -268,7 +280,8 @@ impl World {
     }
 
     pub fn has_node(&self, k: usize) -> bool { self.nodes.contains_key(&k) }
-    pub fn names_pos(&self, tid: &[u8]) -> Option<usize> { self.names.iter().position(|n| n == tid) }
+    /// the name of the id `tid` as used by node `owner`
+    pub fn names_pos(&self, owner: usize, tid: &[u8]) -> Option<usize> { self.names.iter().position(|n| n.0 == owner && n.1 == tid) }
     /// text of a message that is delivered as an input (tokens issued by real nodes by name)
     pub fn body_text_in(&mut self, m: &Message) -> String { let t = self.body_text(m, false); self.rename(&t) }
     pub async fn sleep_until_activity_pub(&mut self, limit: u128, raw: &mut Vec<(std::time::Instant, String)>) -> u128 {
@@ -285,7 +298,7 @@ impl World {
     fn resolve_tid(&self, spec: &str) -> Option<Vec<u8>> {
         if let Some(h) = spec.strip_prefix('x') { return unhex(h); }
         let k: usize = spec.strip_prefix('#')?.parse().ok()?;
-        self.names.get(k).cloned()
+        self.names.get(k).map(|n| n.1.clone())
     }
     fn resolve_tokens(&self, words: &[&str]) -> Option<Vec<String>> {
         let mut ws: Vec<String> = words.iter().map(|s| s.to_string()).collect();
@@ -317,6 +330,30 @@ impl World {
         let mut raw = vec![];
         let Some(t) = w.last().and_then(|x| parse_at(x)) else { return "bad-op".into() };
         if t < self.now() { return "bad-op".into() }
+        // an op that cannot be carried out has no effect at all (as in the model): check first
+        let node_of = |i: usize| w.get(i).and_then(|x| x.parse::<usize>().ok());
+        let valid = match w[0] {
+            "adv" => w.len() == 2,
+            "nnew" => match (node_of(1), w.get(2).and_then(|x| unhex(x)), kv(&w, "addr").and_then(parse_addr)) {
+                (Some(k), Some(id), Some(addr)) => id.len() == 20 && !self.nodes.contains_key(&k) && !self.by_addr.contains_key(&addr)
+                    && kv(&w, "routers").unwrap_or("-").split(',').filter(|x| *x != "-" && !x.is_empty()).all(|r| r.starts_with('!') || parse_addr(r).is_some())
+                    && kv(&w, "nodes").unwrap_or("-").split(',').filter(|x| *x != "-" && !x.is_empty()).all(|r| parse_addr(r).is_some()),
+                _ => false,
+            },
+            "dg" => node_of(1).map(|k| self.nodes.contains_key(&k)).unwrap_or(false) && w.len() >= 6
+                && match (self.resolve_tid(w[2]), parse_addr(w[3])) {
+                    (Some(tid), Some(_)) => self.build_msg(tid, &w[4..w.len() - 1]).map(|m| m.encode().is_ok()).unwrap_or(false),
+                    _ => false,
+                },
+            "dgraw" => node_of(1).map(|k| self.nodes.contains_key(&k)).unwrap_or(false) && w.len() == 5 && parse_addr(w[3]).is_some(),
+            "api" => node_of(1).map(|k| self.nodes.contains_key(&k)).unwrap_or(false) && match w.get(2).copied() {
+                Some("bootstrapped") | Some("state") | Some("contacts") | Some("addr") => w.len() == 4,
+                Some("search") => w.len() == 6 && w.get(3).and_then(|x| unhex(x)).map(|x| x.len() == 20).unwrap_or(false),
+                _ => false,
+            },
+            _ => false,
+        };
+        if !valid { return "bad-op".into() }
         // everything due up to `t` happens first
         self.sleep_to(t, &mut raw).await;
         match w[0] {
